@@ -238,6 +238,17 @@ class Walker:
             else:
                 e = s.exc
                 name = _txt(e.func) if isinstance(e, ast.Call) else _txt(e)
+                # `raise self._build_error(..)`: a private factory whose
+                # single return builds the exception - the class raised is
+                # the one it returns
+                helper = self.inline_target(e) \
+                    if isinstance(e, ast.Call) else None
+                if helper is not None and \
+                        isinstance(helper.body[-1], ast.Return) and \
+                        helper.body[-1].value is not None:
+                    rv = helper.body[-1].value
+                    name = _txt(rv.func) if isinstance(rv, ast.Call) \
+                        else _txt(rv)
                 self.emit('RaiseE', name)
             return
         if isinstance(s, ast.Return):
